@@ -1,0 +1,10 @@
+//go:build !verif
+
+// Package verifhook provides instrumentation points for the verification harness.
+// Without the `verif` build tag every point is a no-op.
+package verifhook
+
+// Point is a no-op unless built with the verif tag.
+func Point(_ string, _ []byte) error {
+	return nil
+}
